@@ -92,7 +92,7 @@ def ob_calls(ctx, N):
         props.append(('args[%s]' % fn, value_eq(list(a), list(ea))))
         props.append(('kwargs[%s]' % fn, value_eq(dict(k), dict(ek))))
     props.append(('tree-unchanged-by-writing', value_eq(dom.actual(t), before)))
-    return verdict(ctx, props, witness=lambda m: {'tree': dom.describe(m, t), 'calls': True},
+    return verdict(ctx, props, witness=lambda m: {'tree': dom.describe_actual(m, before), 'calls': True},
                    sample=lambda m: {'calls': [c[0] for c in got]})
 
 
@@ -133,8 +133,8 @@ def replay(ob, label, w):
         wr = DiffXDOMWriter()
         wr.writer_cls = RecordingWriter
         before = dom.actual(t)
-        wr.write_stream(t, object())
         sc = dom.tree_script(t)
+        wr.write_stream(t, object())
         exp = [('init', (), {'encoding': sc.main_encoding, 'version': '1.0'})] + [(fn, a, k) for _, fn, a, k in sc.calls]
         got = [(fn, tuple(a), dict(k)) for fn, a, k in RecordingWriter.calls]
         exp = [(fn, tuple(a), dict(k)) for fn, a, k in exp]
